@@ -44,9 +44,11 @@ package goja
 //@   loop 1 vars i int
 //@   loop 1 invariant -1 <= i && i < len(a.values) && sameslice(a.values, old(a.values)) [range]
 //@   loop 1 invariant forall k int :: i < k && k < len(a.values) && k >= int(l) ==> !specNonConfigurable(a.values[k]) [dropped-are-configurable]
-//@   loop 2 vars rangeindex int, ar []Value
-//@   loop 2 invariant -1 <= rangeindex && rangeindex < len(ar) && sameslice(a.values, old(a.values)) [range]
-//@   loop 2 invariant forall k int :: 0 <= k && k < len(a.values) - len(ar) ==> same(a.values[k], old(a.values[k])) [kept-untouched]
+//@   loop 3 vars rangeindex int, ar []Value
+//@   loop 3 invariant -1 <= rangeindex && rangeindex < len(ar) && sameslice(a.values, old(a.values)) [range]
+//@   loop 3 invariant forall k int :: 0 <= k && k < len(a.values) - len(ar) ==> same(a.values[k], old(a.values[k])) [kept-untouched]
+// (the loop that counts the removed elements only lowers objCount)
+//@   loop 2 invariant true [count-removed]
 //@   ensures a.length >= l [not-below-request]
 //@   ensures forall k int :: 0 <= k && k < len(old(a.values)) && k >= int(a.length) ==> !old(specNonConfigurable(a.values[k])) [keeps-nonconfigurable]
 //@   ensures forall k int :: 0 <= k && k < len(a.values) ==> same(a.values[k], old(a.values[k])) [kept-elements]
